@@ -1,5 +1,6 @@
 import ZarrsModel.Model.ShardPE
 import ZarrsModel.Lemmas.ShardPE
+import ZarrsModel.Lemmas.ShardPEFixed
 /-
 C05 — partial encoding is equivalent to rewriting the whole chunk.
 -/
@@ -12,15 +13,15 @@ def updatesOk (c : Cfg) (updates : List (Nat × Option Bytes)) : Prop :=
 
 /-- **sharding partial encoder, from an absent value**: the result is erased (everything fill) or a shard that
 decodes to exactly the written inner chunks and passes the independent layout check -/
-theorem shard_partial_from_absent (c : Cfg) (updates : List (Nat × Option Bytes)) (hu : updatesOk c updates)
+theorem shard_partial_from_absent_pinned (c : Cfg) (updates : List (Nat × Option Bytes)) (hu : updatesOk c updates)
     (hsmall : ((updates.filterMap (·.2)).map List.length).sum + indexSize c < sentinel) :
-    match partialEncode c none updates with
+    match partialEncodePinned c none updates with
     | some none => ∀ u ∈ updates, u.2 = none
     | some (some v') => decode c true v' = .ok (applyUpdates (List.replicate c.nChunks none) updates) ∧ wellFormed c v' = true
     | none => False := by
   have h := partialEncode_absent c updates hu hsmall
   revert h
-  cases partialEncode c none updates with
+  cases partialEncodePinned c none updates with
   | none => exact id
   | some r =>
     cases r with
@@ -41,7 +42,7 @@ example : let c : Cfg := ⟨3, false, true, false⟩
 /-- **sharding partial encoder, from an existing well-formed tight value** (partial statement: the hypothesis
 `hgrow` excludes exactly the known finding — an index at the end whose rewritten suffix would end before the old
 value's end): the new value decodes to the updated inner chunks and is again well formed and tight -/
-theorem shard_wellformed_partial (c : Cfg) (v : Bytes) (chunks : List (Option Bytes))
+theorem shard_wellformed_partial_pinned (c : Cfg) (v : Bytes) (chunks : List (Option Bytes))
     (hdec : decode c true v = .ok chunks) (hwf : wellFormed c v = true) (ht : tight c v = true)
     (updates : List (Nat × Option Bytes)) (hu : updatesOk c updates)
     (hsmall : v.length + ((updates.filterMap (·.2)).map List.length).sum + indexSize c < sentinel)
@@ -49,7 +50,7 @@ theorem shard_wellformed_partial (c : Cfg) (v : Bytes) (chunks : List (Option By
       ∀ idx, currentIndex c (some v) = some idx →
         liveEnd (updates.foldl (fun ix u => setEntry ix u.1 (sentinel, sentinel)) idx) = liveEnd idx ∨
         (updates.foldl (fun ix u => setEntry ix u.1 (sentinel, sentinel)) idx).all (fun e => !isLive e) = true) :
-    match partialEncode c (some v) updates with
+    match partialEncodePinned c (some v) updates with
     | some none => ∀ ch ∈ applyUpdates chunks updates, ch = none
     | some (some v') => decode c true v' = .ok (applyUpdates chunks updates) ∧ wellFormed c v' = true ∧ tight c v' = true
     | none => False := by
@@ -59,7 +60,7 @@ theorem shard_wellformed_partial (c : Cfg) (v : Bytes) (chunks : List (Option By
       fold_step1 updates idx] at this)
   have h := partialEncode_wellformed c v chunks hdec hwf ht updates hu hsmall
   revert h
-  cases partialEncode c (some v) updates with
+  cases partialEncodePinned c (some v) updates with
   | none => exact id
   | some r =>
     cases r with
@@ -108,18 +109,18 @@ inner chunks does not lower the end of the live data, or nothing survives), and 
 condition at all: from a well-formed tight value the new value ALWAYS decodes to the updated inner chunks and is well
 formed; only its tightness can be lost — and a value that is not tight is what the next partial write corrupts
 (`shard_index_end_stale_tail`) -/
-theorem shard_wellformed_partial_sharp (c : Cfg) (v : Bytes) (chunks : List (Option Bytes))
+theorem shard_wellformed_partial_sharp_pinned (c : Cfg) (v : Bytes) (chunks : List (Option Bytes))
     (hdec : decode c true v = .ok chunks) (hwf : wellFormed c v = true) (ht : tight c v = true)
     (updates : List (Nat × Option Bytes)) (hu : updatesOk c updates)
     (hsmall : v.length + ((updates.filterMap (·.2)).map List.length).sum + indexSize c < sentinel) :
-    match partialEncode c (some v) updates with
+    match partialEncodePinned c (some v) updates with
     | some none => ∀ ch ∈ applyUpdates chunks updates, ch = none
     | some (some v') => decode c true v' = .ok (applyUpdates chunks updates) ∧ wellFormed c v' = true ∧
         (Grow c v updates → tight c v' = true)
     | none => False := by
   have h := partialEncode_wellformed c v chunks hdec hwf ht updates hu hsmall
   revert h
-  cases partialEncode c (some v) updates with
+  cases partialEncodePinned c (some v) updates with
   | none => exact id
   | some r =>
     cases r with
@@ -134,9 +135,9 @@ inner chunks, set the second to fill, write it again smaller — the stored valu
 theorem shard_index_end_stale_tail :
     ∃ (c : Cfg) (v1 v2 v3 : Bytes),
       c.indexAtEnd = true ∧
-      partialEncode c none [(0, some [1, 2, 3, 4]), (1, some [5, 6, 7, 8, 9, 10])] = some (some v1) ∧
-      partialEncode c (some v1) [(1, none)] = some (some v2) ∧
-      partialEncode c (some v2) [(1, some [7])] = some (some v3) ∧
+      partialEncodePinned c none [(0, some [1, 2, 3, 4]), (1, some [5, 6, 7, 8, 9, 10])] = some (some v1) ∧
+      partialEncodePinned c (some v1) [(1, none)] = some (some v2) ∧
+      partialEncodePinned c (some v2) [(1, some [7])] = some (some v3) ∧
       decode c true v1 = .ok [some [1, 2, 3, 4], some [5, 6, 7, 8, 9, 10]] ∧
       decode c true v2 = .ok [some [1, 2, 3, 4], none] ∧
       decode c true v3 ≠ .ok [some [1, 2, 3, 4], some [7]] := by
@@ -172,5 +173,109 @@ theorem unsharded_pinned_stale_tail :
 theorem writeAt_never_truncates (v : Bytes) (off : Nat) (b : Bytes) :
     ∃ v', writeAt (some v) off b = some v' ∧ v'.length = max v.length (off + b.length) :=
   ⟨_, rfl, (C08.setPartial_zero_extends v b off).1⟩
+
+/-! ### the repaired encoder (`ShardPE.partialEncode`): the full statement, for every history -/
+
+/-- **from an absent value** -/
+theorem shard_partial_from_absent (c : Cfg) (updates : List (Nat × Option Bytes)) (hu : updatesOk c updates)
+    (hsmall : ((updates.filterMap (·.2)).map List.length).sum + indexSize c < sentinel) :
+    match partialEncode c none updates with
+    | some none => ∀ u ∈ updates, u.2 = none
+    | some (some v') => decode c true v' = .ok (applyUpdates (List.replicate c.nChunks none) updates) ∧
+        wellFormed c v' = true ∧ tight c v' = true
+    | none => False := by
+  have h := partialEncode_fixed_absent c updates hu hsmall
+  revert h
+  cases partialEncode c none updates with
+  | none => exact id
+  | some r =>
+    cases r with
+    | none => exact fun h => h.1
+    | some v' => exact fun h => ⟨h.1, h.2.1, h.2.2 trivial⟩
+
+/-- **from any well-formed tight value, with no further condition**: the new value decodes to exactly the updated
+inner chunks, is a legal shard, and is tight again — for either index location (the hypothesis `hgrow` of the
+statement about the code as found is gone) -/
+theorem shard_partial_encode (c : Cfg) (v : Bytes) (chunks : List (Option Bytes))
+    (hdec : decode c true v = .ok chunks) (hwf : wellFormed c v = true) (ht : tight c v = true)
+    (updates : List (Nat × Option Bytes)) (hu : updatesOk c updates)
+    (hsmall : v.length + ((updates.filterMap (·.2)).map List.length).sum + indexSize c < sentinel) :
+    match partialEncode c (some v) updates with
+    | some none => ∀ ch ∈ applyUpdates chunks updates, ch = none
+    | some (some v') => decode c true v' = .ok (applyUpdates chunks updates) ∧ wellFormed c v' = true ∧ tight c v' = true
+    | none => False := by
+  have h := partialEncode_fixed_wellformed c v chunks hdec hwf ht updates hu hsmall
+  revert h
+  cases partialEncode c (some v) updates with
+  | none => exact id
+  | some r =>
+    cases r with
+    | none => exact fun h => h.2
+    | some v' => exact fun h => ⟨h.1, h.2.1, h.2.2 trivial⟩
+
+/-- the hypotheses are satisfiable, and this instance takes the repair branch: index at the end, the update drops the
+LAST inner chunk of `exEnd` and stores nothing, so the end of the live data moves from 10 down to 4 (the statement
+about the code as found excludes this update by `hgrow`); the result is the 4 data bytes followed by the index -/
+example : let c : Cfg := ⟨2, true, false, true⟩
+    let updates : List (Nat × Option Bytes) := [(1, none)]
+    decode c true exEnd = .ok [some [1, 2, 3, 4], some [5, 6, 7, 8, 9, 10]] ∧ wellFormed c exEnd = true ∧
+    tight c exEnd = true ∧ updatesOk c updates ∧
+    exEnd.length + ((updates.filterMap (·.2)).map List.length).sum + indexSize c < sentinel ∧
+    partialEncode c (some exEnd) updates = some (some ([1, 2, 3, 4] ++ encodeIndex c [(0, 4), (sentinel, sentinel)])) ∧
+    partialEncode c (some exEnd) updates ≠ partialEncodePinned c (some exEnd) updates := by
+  refine ⟨by decide +kernel, by decide +kernel, by decide +kernel, by unfold updatesOk; decide, by decide,
+    by decide +kernel, by decide +kernel⟩
+
+/-- the history of the pinned witness of F-C05-K1 now ends in a shard that decodes to what was written -/
+example : let c : Cfg := ⟨2, true, false, true⟩
+    ((partialEncode c none [(0, some [1, 2, 3, 4]), (1, some [5, 6, 7, 8, 9, 10])]).bind (fun v1 =>
+      (partialEncode c v1 [(1, none)]).bind (fun v2 => partialEncode c v2 [(1, some [7])]))).map
+        (fun v3 => v3.map (decode c true)) = some (some (.ok [some [1, 2, 3, 4], some [7]])) := by
+  decide +kernel
+
+/-- run a history of partial encodes -/
+def runUpdates (c : Cfg) (v : Option Bytes) : List (List (Nat × Option Bytes)) → Option (Option Bytes)
+  | [] => some v
+  | u :: rest => (partialEncode c v u).bind (fun v' => runUpdates c v' rest)
+
+/-- **every history**: after any sequence of partial encodes starting from an absent value, the stored value is
+absent with every inner chunk fill, or decodes to exactly the inner chunks the updates leave, and is a legal, tight
+shard (so the next partial encode starts from the same invariant) -/
+theorem shard_history (c : Cfg) (hist : List (List (Nat × Option Bytes))) (hu : ∀ u ∈ hist, updatesOk c u)
+    (hsmall : ((hist.map (fun u => ((u.filterMap (·.2)).map List.length).sum + indexSize c)).sum + indexSize c < sentinel)) :
+    match runUpdates c none hist with
+    | some none => ∀ ch ∈ hist.foldl applyUpdates (List.replicate c.nChunks none), ch = none
+    | some (some v) => decode c true v = .ok (hist.foldl applyUpdates (List.replicate c.nChunks none)) ∧
+        wellFormed c v = true ∧ tight c v = true
+    | none => False := by
+  have hrun : ∀ (v : Option Bytes) (h : List (List (Nat × Option Bytes))), runUpdates c v h = runHist c v h := by
+    intro v h
+    induction h generalizing v with
+    | nil => rfl
+    | cons u rest ih => simp only [runUpdates, runHist, ih]
+  obtain ⟨vo', hr, hst⟩ := history_inv c hist none _ rfl hu (by simpa [histCost] using hsmall)
+  rw [hrun, hr]
+  cases vo' with
+  | none =>
+    intro ch hch
+    rw [show hist.foldl applyUpdates (List.replicate c.nChunks none) = List.replicate c.nChunks none from hst] at hch
+    exact List.eq_of_mem_replicate hch
+  | some v => exact hst
+
+/-- the hypotheses are satisfiable: index at the end, four steps — write both inner chunks, remove the LAST inner
+chunk (the repair branch: the value is cut back to the 4 remaining data bytes plus the index), write it again smaller,
+rewrite the first; the final value decodes to what the history leaves -/
+example : let c : Cfg := ⟨2, true, false, true⟩
+    let hist : List (List (Nat × Option Bytes)) :=
+      [[(0, some [1, 2, 3, 4]), (1, some [5, 6, 7, 8, 9, 10])], [(1, none)], [(1, some [7])], [(0, some [9, 9])]]
+    (∀ u ∈ hist, updatesOk c u) ∧
+    (hist.map (fun u => ((u.filterMap (·.2)).map List.length).sum + indexSize c)).sum + indexSize c < sentinel ∧
+    hist.foldl applyUpdates (List.replicate c.nChunks none) = [some [9, 9], some [7]] ∧
+    runUpdates c none (hist.take 2) = some (some ([1, 2, 3, 4] ++ encodeIndex c [(0, 4), (sentinel, sentinel)])) ∧
+    (runUpdates c none hist).map (fun r => r.map (decode c true)) = some (some (.ok [some [9, 9], some [7]])) := by
+  refine ⟨?_, by decide, by decide, by decide +kernel, by decide +kernel⟩
+  intro u hu
+  simp only [List.mem_cons, List.not_mem_nil, or_false] at hu
+  rcases hu with rfl | rfl | rfl | rfl <;> (unfold updatesOk; decide)
 
 end Zarrs.C05
